@@ -1,17 +1,208 @@
+// harness generates API programs, runs them on the qrb tree under test and records the observables
+// (one JSON object per line) for comparison with the extracted Coq model.
 package main
 
 import (
+	"encoding/hex"
+	"encoding/json"
+	"errors"
+	"flag"
 	"fmt"
+	"os"
+	"reflect"
+	"regexp"
+	"sort"
+	"strings"
 
-	qrb "github.com/networkteam/qrb"
-	"github.com/networkteam/qrb/fn"
+	"github.com/networkteam/qrb/builder"
 	"verif/internal/dump"
+	"verif/internal/gen"
 )
 
+type Render struct {
+	V       bool           `json:"v"`
+	P       bool           `json:"p"`
+	Named   map[string]int `json:"named"` // nil: no WithNamedArgs call
+	Panic   string         `json:"panic,omitempty"`
+	SQL     string         `json:"sql"` // hex
+	Args    []int          `json:"args"`
+	Err     *string        `json:"err"` // hex of err.Error(), null if nil
+	ErrIs   []string       `json:"err_is,omitempty"`
+	Missing bool           `json:"missing,omitempty"`
+}
+
+type Case struct {
+	ID      int      `json:"id"`
+	Gen     string   `json:"gen"`
+	Type    string   `json:"type"`
+	Prog    string   `json:"prog"`
+	Dump    string   `json:"dump"`
+	Binds   []string `json:"binds"` // hex
+	Renders []Render `json:"renders"`
+}
+
+type tagged struct{ id int }
+
+func makePool() []any {
+	pool := []any{nil, 1, 1, "x", "x", 3.5, true, []int{1, 2}, []int{1, 2}, map[string]int{"a": 1}, &tagged{10}}
+	for i := len(pool); i < 48; i++ {
+		pool = append(pool, 1000+i)
+	}
+	return pool
+}
+
+var pool = makePool()
+
+func anyID(v any) int {
+	for i, p := range pool {
+		if reflect.DeepEqual(p, v) {
+			return i
+		}
+	}
+	return -1
+}
+
+var sentinels = map[string]error{
+	"ErrInvalidIdentifier":                 builder.ErrInvalidIdentifier,
+	"ErrInvalidType":                       builder.ErrInvalidType,
+	"ErrNoConditionsGiven":                 builder.ErrNoConditionsGiven,
+	"ErrFromItemLateralAndOnly":            builder.ErrFromItemLateralAndOnly,
+	"ErrInsertValuesAndQuery":              builder.ErrInsertValuesAndQuery,
+	"ErrInsertConflictConstraintAndTarget": builder.ErrInsertConflictConstraintAndTarget,
+}
+
+func render(w builder.SQLWriter, v, p bool, named map[string]int) (r Render) {
+	r.V, r.P, r.Named = v, p, named
+	defer func() {
+		if e := recover(); e != nil {
+			r.Panic = fmt.Sprint(e)
+		}
+	}()
+	qb := builder.Build(w)
+	if !v {
+		qb = qb.WithoutValidation()
+	}
+	if p {
+		qb = qb.PrettyPrint()
+	}
+	if named != nil {
+		m := map[string]any{}
+		for k, id := range named {
+			m[k] = pool[id]
+		}
+		qb = qb.WithNamedArgs(m)
+	}
+	sql, args, err := qb.ToSQL()
+	r.SQL = hex.EncodeToString([]byte(sql))
+	r.Args = []int{}
+	for _, a := range args {
+		r.Args = append(r.Args, anyID(a))
+	}
+	if err != nil {
+		msg := err.Error()
+		if strings.HasPrefix(msg, "missing named argument ") && sql == "" && args == nil {
+			r.Missing = true
+		}
+		h := hex.EncodeToString([]byte(msg))
+		r.Err = &h
+		for name, s := range sentinels {
+			if errors.Is(err, s) {
+				r.ErrIs = append(r.ErrIs, name)
+			}
+		}
+		sort.Strings(r.ErrIs)
+	}
+	return r
+}
+
+var bindRe = regexp.MustCompile(`\(bindExp s([0-9a-f]*)\)`)
+
+func bindsOf(dumpText string) []string {
+	seen := map[string]bool{}
+	var out []string
+	for _, m := range bindRe.FindAllStringSubmatch(dumpText, -1) {
+		if !seen[m[1]] {
+			seen[m[1]] = true
+			out = append(out, m[1])
+		}
+	}
+	return out
+}
+
+var sqlWriterType = reflect.TypeOf((*builder.SQLWriter)(nil)).Elem()
+
 func main() {
-	d := &dump.Dumper{AnyID: func(v any) int { return 7 }}
-	q := qrb.Select(qrb.N("a").Eq(qrb.Arg(1)), fn.Count(qrb.N("*")).Filter(qrb.N("x").IsNull())).From(qrb.N("t")).As("x").LeftJoin(qrb.N("u")).On(qrb.N("t.id").Eq(qrb.N("u.id"))).Where(qrb.N("b").Like(qrb.String("x%")).Escape('!')).Limit(qrb.Int(5))
-	fmt.Println(d.Value(q))
-	sql, args, err := qrb.Build(q).ToSQL()
-	fmt.Println(sql, args, err)
+	seed := flag.Int64("seed", 1, "PRNG seed")
+	n := flag.Int("n", 100, "number of cases")
+	depth := flag.Int("depth", 5, "maximum nesting depth")
+	hostile := flag.Float64("hostile", 0.03, "probability of a hostile name")
+	out := flag.String("out", "", "output file (default stdout)")
+	flag.Parse()
+
+	w := os.Stdout
+	if *out != "" {
+		f, err := os.Create(*out)
+		if err != nil {
+			panic(err)
+		}
+		defer f.Close()
+		w = f
+	}
+	enc := json.NewEncoder(w)
+	g := gen.New(*seed, pool)
+	g.Hostile = *hostile
+	d := &dump.Dumper{AnyID: anyID}
+
+	var targets []reflect.Type
+	for _, t := range g.Types() {
+		if t.Implements(sqlWriterType) {
+			targets = append(targets, t)
+		}
+	}
+	sort.Slice(targets, func(i, j int) bool { return targets[i].String() < targets[j].String() })
+
+	for id := 0; id < *n; {
+		t := targets[g.Rng.Intn(len(targets))]
+		dep := 1 + g.Rng.Intn(*depth)
+		val, ok := g.Gen(t, dep, "")
+		if !ok {
+			g.Stats["gen-failed"]++
+			continue
+		}
+		sw := val.V.Interface().(builder.SQLWriter)
+		c := Case{ID: id, Gen: "typed", Type: t.String(), Prog: val.Prog}
+		c.Dump = d.Value(val.V.Interface())
+		c.Binds = bindsOf(c.Dump)
+		full := map[string]int{}
+		for _, b := range c.Binds {
+			name, _ := hex.DecodeString(b)
+			full[string(name)] = anyID(pool[g.Rng.Intn(len(pool))])
+		}
+		for _, vp := range [][2]bool{{true, false}, {false, false}, {true, true}, {false, true}} {
+			c.Renders = append(c.Renders, render(sw, vp[0], vp[1], full))
+		}
+		if len(c.Binds) > 0 {
+			miss := map[string]int{}
+			skip := g.Rng.Intn(len(c.Binds))
+			for i, b := range c.Binds {
+				if i != skip {
+					name, _ := hex.DecodeString(b)
+					miss[string(name)] = full[string(name)]
+				}
+			}
+			c.Renders = append(c.Renders, render(sw, true, false, miss))
+			c.Renders = append(c.Renders, render(sw, true, false, nil))
+			extra := map[string]int{"zz-unused": 3}
+			for k, v := range full {
+				extra[k] = v
+			}
+			c.Renders = append(c.Renders, render(sw, true, false, extra))
+		}
+		if err := enc.Encode(c); err != nil {
+			panic(err)
+		}
+		id++
+	}
+	st, _ := json.Marshal(g.Stats)
+	fmt.Fprintf(os.Stderr, "STATS %s\n", st)
 }
